@@ -133,6 +133,12 @@ type c16case struct {
 	// "fmt" makes a second gta of the same package fail with "redeclared", which would turn an
 	// unbounded import recursion into an ordinary error.)
 	Quiet bool `json:"quiet,omitempty"`
+	// Links: how the tree is laid out on disk. The directories listed (paths from the origin) are
+	// symbolic links to directories kept elsewhere; LinkEntry: so is the entry file. A MapFS has no
+	// links and shows the logical tree: both must give the same result.
+	Links     []string `json:"links,omitempty"`
+	LinkEntry bool     `json:"link_entry,omitempty"`
+	LinkKind  string   `json:"link_kind,omitempty"`
 }
 
 type c16world struct {
@@ -1398,6 +1404,111 @@ func (c *c16case) refFiles() map[string]string {
 	return m
 }
 
+// materialize writes the program below root; the directories of c.Links (parents first) and, with
+// c.LinkEntry, the entry file are symbolic links into store.
+func (c *c16case) materialize(root, store string) error {
+	linked := map[string]bool{}
+	for _, d := range c.Links {
+		linked[d] = true
+	}
+	dirs := map[string]bool{}
+	for _, p := range c.Pkgs {
+		parts := c16Split(p.Dir)
+		for k := 1; k <= len(parts); k++ {
+			dirs[strings.Join(parts[:k], "/")] = true
+		}
+	}
+	all := sortedKeys(dirs)
+	sort.SliceStable(all, func(i, j int) bool { return strings.Count(all[i], "/") < strings.Count(all[j], "/") })
+	if err := os.MkdirAll(root, 0o755); err != nil {
+		return err
+	}
+	n := 0
+	for _, d := range all {
+		full := filepath.Join(root, d)
+		if linked[d] {
+			n++
+			target := filepath.Join(store, fmt.Sprintf("d%d", n))
+			if err := os.MkdirAll(target, 0o755); err != nil {
+				return err
+			}
+			if err := os.Symlink(target, full); err != nil {
+				return err
+			}
+		} else if err := os.Mkdir(full, 0o755); err != nil {
+			return err
+		}
+	}
+	entryFile := ""
+	if c.LinkEntry {
+		entryFile = c.mainDir() + "/p.go"
+	}
+	for name, src := range c.files() {
+		full := filepath.Join(root, name)
+		if name == entryFile {
+			target := filepath.Join(store, "entry_p.go")
+			if err := os.MkdirAll(store, 0o755); err != nil {
+				return err
+			}
+			if err := os.WriteFile(target, []byte(src), 0o644); err != nil {
+				return err
+			}
+			if err := os.Symlink(target, full); err != nil {
+				return err
+			}
+			continue
+		}
+		if err := os.WriteFile(full, []byte(src), 0o644); err != nil {
+			return err
+		}
+	}
+	return nil
+}
+
+// chooseLinks decides the on-disk layout of a program; kind cycles over the programs of a run so
+// that every kind occurs in every stream: none / every vendor directory / package directories /
+// intermediate directories and the entry file / any directory.
+func (g *c16gen) chooseLinks(c *c16case, kind int) {
+	dirs := map[string]bool{}
+	pkg := map[string]bool{}
+	for _, p := range c.Pkgs {
+		pkg[p.Dir] = true
+		parts := c16Split(p.Dir)
+		for k := 1; k <= len(parts); k++ {
+			dirs[strings.Join(parts[:k], "/")] = true
+		}
+	}
+	names := []string{"plain", "vendor-dirs", "package-dirs", "intermediate-dirs+entry-file", "any"}
+	c.LinkKind = names[kind%len(names)]
+	for _, d := range sortedKeys(dirs) {
+		if d == "gp" || d == c16Gsrc {
+			continue
+		}
+		isVendor := strings.HasSuffix(d, "/"+c16Vendor)
+		switch c.LinkKind {
+		case "vendor-dirs":
+			if isVendor {
+				c.Links = append(c.Links, d)
+			}
+		case "package-dirs":
+			if pkg[d] && g.r.chance(40) {
+				c.Links = append(c.Links, d)
+			}
+		case "intermediate-dirs+entry-file":
+			if !pkg[d] && !isVendor && g.r.chance(60) {
+				c.Links = append(c.Links, d)
+			}
+		case "any":
+			if g.r.chance(40) {
+				c.Links = append(c.Links, d)
+			}
+		}
+	}
+	if c.LinkKind == "intermediate-dirs+entry-file" || (c.LinkKind == "any" && g.r.bool()) {
+		c.LinkEntry = true
+	}
+}
+
 // relInGopath: some package below GOPATH/src has a relative import (cmd/go refuses that).
 func (c *c16case) relInGopath() bool {
 	gs := c16Split(c16Gsrc)
@@ -1723,14 +1834,8 @@ func c16Run(c *c16case) (impl c16evalRes, ref c16out, err error) {
 	root := filepath.Join(top, "t")
 	cwd := filepath.Join(top, "cwd")
 	os.MkdirAll(cwd, 0o755)
-	for name, src := range c.files() {
-		full := filepath.Join(root, name)
-		if err := os.MkdirAll(filepath.Dir(full), 0o755); err != nil {
-			return impl, ref, err
-		}
-		if err := os.WriteFile(full, []byte(src), 0o644); err != nil {
-			return impl, ref, err
-		}
+	if err := c.materialize(root, filepath.Join(top, "store")); err != nil {
+		return impl, ref, err
 	}
 	os.MkdirAll(filepath.Join(root, "gp", "src"), 0o755)
 	cj, _ := json.Marshal(c)
@@ -1763,10 +1868,15 @@ func c16Run(c *c16case) (impl c16evalRes, ref c16out, err error) {
 	impl.Disk = child("disk")
 	impl.MapFS = child("mapfs")
 	groot := root
-	if c.relInGopath() {
-		// the toolchain gets the variant without relative imports inside GOPATH, in a tree of its own
+	if c.relInGopath() || len(c.Links) > 0 || c.LinkEntry {
+		// the toolchain gets a tree of its own, of plain directories, and the variant without relative
+		// imports inside GOPATH
 		groot = filepath.Join(top, "g")
-		for name, src := range c.refFiles() {
+		gfiles := c.files()
+		if c.relInGopath() {
+			gfiles = c.refFiles()
+		}
+		for name, src := range gfiles {
 			full := filepath.Join(groot, name)
 			if err := os.MkdirAll(filepath.Dir(full), 0o755); err != nil {
 				return impl, ref, err
@@ -2209,6 +2319,13 @@ func runC16(args []string) error {
 		ref  c16out
 		err  error
 	}
+	// the layout on disk (symbolic links) cycles within each stream
+	perStream := map[string]int{}
+	for _, c := range progs {
+		key := strings.SplitN(c.Stream, ":", 2)[0]
+		g.chooseLinks(c, perStream[key])
+		perStream[key]++
+	}
 	results := make([]runRes, len(progs))
 	parallelMap(len(progs), 0, func(i int) {
 		im, rf, err := c16Run(progs[i])
@@ -2319,6 +2436,13 @@ func runC16(args []string) error {
 			sm.count("e2e:has-unreachable-packages")
 		}
 		sm.count(fmt.Sprintf("e2e:loaded-packages:%d", min(len(reach), 8)))
+		sm.count("e2e:disk-layout:" + c.LinkKind)
+		for _, d := range c.Links {
+			if strings.HasSuffix(d, "/"+c16Vendor) {
+				sm.count("e2e:disk-layout:programs-with-a-linked-vendor-directory")
+				break
+			}
+		}
 		if r.impl.MapFS.Opens > sm.Distribution["e2e:max-opens-of-a-mapfs-run"] {
 			sm.Distribution["e2e:max-opens-of-a-mapfs-run"] = r.impl.MapFS.Opens
 		}
